@@ -486,9 +486,19 @@ func checkCloexecSites(c *Check, r *e1Result) {
 			if callee == nil || !inModule(callee) {
 				continue
 			}
-			if readsProcSelfFd(callee) {
+			// the sweep over /proc/self/fd: this callee, or a helper it calls (split-off preparation step)
+			sweep := callee
+			if !readsProcSelfFd(callee) {
+				sweep = nil
+				for _, c2 := range callInstrsDeep(callee, 1) {
+					if _, c3 := calleeOf(c2); c3 != nil && inModule(c3) && readsProcSelfFd(c3) {
+						sweep = c3
+					}
+				}
+			}
+			if sweep != nil {
 				all = ci
-				fn := callee
+				fn := sweep
 				// every entry is marked, unconditionally
 				okAll := false
 				for _, c2 := range callInstrs(fn) {
